@@ -299,7 +299,15 @@ pub fn apply(s: &mut Stream, name: &'static str, rng: &mut Rng) -> Option<Applie
             if c.is_empty() {
                 return None;
             }
-            let (l, p) = c[rng.usize_below(c.len())];
+            let (mut l, mut p) = c[rng.usize_below(c.len())];
+            if name == "fee_edit_page_n" && rng.chance(1, 2) {
+                // (the link whose packets come first in a round-robin merge)
+                let first: Vec<(usize, usize)> = c.iter().copied().filter(|&(k, _)| k == 0).collect();
+                if !first.is_empty() {
+                    (l, p) = first[rng.usize_below(first.len())];
+                }
+            }
+            let other_fees: Vec<u16> = s.links.iter().enumerate().filter(|(i, _)| *i != l).map(|(_, k)| k.fee_id).filter(|f| *f != s.links[l].fee_id).collect();
             {
                 let r = &mut s.links[l].packets[p].rdh;
                 match name {
@@ -307,13 +315,18 @@ pub fn apply(s: &mut Stream, name: &'static str, rng: &mut Rng) -> Option<Applie
                     "orbit_edit_page_n" => r.orbit = r.orbit.wrapping_add(1 + rng.below(9) as u32),
                     "trigger_edit_page_n" => r.trigger_type ^= 1 << rng.range(0, 14),
                     _ => {
-                        // another valid FEE ID
+                        // another valid FEE ID - in half of the cases (where there is one) the FEE ID of another link
+                        // of the stream: the packet must still be judged against ITS OWN link's previous RDH
                         let old = r.fee_id;
-                        loop {
-                            let f = crate::rdh::fee_id(rng.below(7) as u8, rng.below(48) as u8, (old >> 8 & 3) as u8);
-                            if f != old {
-                                r.fee_id = f;
-                                break;
+                        if !other_fees.is_empty() && rng.chance(1, 2) {
+                            r.fee_id = *rng.pick(&other_fees);
+                        } else {
+                            loop {
+                                let f = crate::rdh::fee_id(rng.below(7) as u8, rng.below(48) as u8, (old >> 8 & 3) as u8);
+                                if f != old {
+                                    r.fee_id = f;
+                                    break;
+                                }
                             }
                         }
                     }
